@@ -11,6 +11,7 @@ import (
 	"path/filepath"
 	"sort"
 	"strconv"
+	"strings"
 	"time"
 )
 
@@ -97,6 +98,12 @@ func runProperty(spec *PropSpec, tier, repo, verif string, seed int64, only *rep
 	if tier == "thorough" {
 		configs = append(configs, [2]string{"linux", "386"}, [2]string{"windows", "amd64"}, [2]string{"darwin", "arm64"})
 	}
+	if only != nil && only.Config != "" {
+		// replay of an obligation that was generated under an extra build configuration
+		if g, a, ok := strings.Cut(only.Config, "/"); ok {
+			configs = [][2]string{{g, a}}
+		}
+	}
 	var run *Run
 	for ci, cfg := range configs {
 		w, err := loadWorld(repo, cfg[0], cfg[1])
@@ -120,11 +127,16 @@ func runProperty(spec *PropSpec, tier, repo, verif string, seed int64, only *rep
 		r.Trusted = spec.Trusted
 		if ci == 0 {
 			run = r
+			if only != nil && only.Config != "" {
+				for i := range r.Obs {
+					r.Obs[i].Config = only.Config
+				}
+			}
 		} else {
 			// fold extra-configuration obligations in, tagged by configuration
 			for _, o := range r.Obs {
 				if o.Status != StOK {
-					o.Construct = o.Construct + " @" + cfg[0] + "/" + cfg[1]
+					o.Config = cfg[0] + "/" + cfg[1]
 					run.Obs = append(run.Obs, o)
 				}
 			}
